@@ -117,6 +117,31 @@ SEEDS = [
  ("C20-one-of-binary-search", "C20", "one_of_p uses needles.binary_search(x) when there are more than 4 needles (nothing sorts them)",
   "one_of_p with 5 or more needles listed unsorted and an input element the binary search misses",
   "run_demo.sh (seed_c20_d_demo.rs integration test)"),
+ # ---- round 4
+ ("C05-resume-label-keeps-err", "C05", "Interpreter::interpret_one, Instruction::ResumeLabel: inlined `last_error_address.take()` no longer resets last_error_code",
+  "an ON ERROR GOTO handler left with RESUME <label>, and ERR read afterwards",
+  "run_demo.sh (demo.bas vs expected.txt)"),
+ ("C06-negate-checked-neg", "C06", "Variant::negate guards with i32/i64::checked_neg instead of the BASIC minima: -(-32768) yields 32768 in an INTEGER",
+  "unary minus on a non-literal INTEGER holding -32768 (or LONG holding -2147483648)",
+  "run_demo.sh (demo.bas vs expected.txt)"),
+ ("C08-handler-context-leaves-argument-state", "C08", "Context::push_error_handler_context drops only the innermost argument-collecting state (`while` became `if`)",
+  "an error raised while evaluating an argument of a call that is itself an argument, inside a SUB, handled with RESUME NEXT; the SUB's return then panics",
+  "run_demo.sh (demo.bas vs expected.txt)"),
+ ("C09-whitespace-swallows-cr", "C09", "tokenizer is_whitespace became `ch.is_ascii_whitespace() && *ch != '\\n'`: a run of blanks swallows a following bare CR",
+  "bare-CR line endings and a line ending in a blank or tab",
+  "run_demo.sh (demo1.bas, demo2.bas in LF / CRLF / CR copies)"),
+ ("C12-long-divide-long-mismatch", "C12", "Variant::divide: the VLong / VLong arm deleted, falls to TypeMismatch",
+  "the / operator with two LONG operands at run time",
+  "run_demo.sh (demo.bas vs expected.txt)"),
+ ("C16-zone-boundary-no-padding", "C16", "move_to_next_print_zone computes the zone from col - 1: at a non-zero multiple of 14 the comma pads 0 blanks",
+  "a comma when the current line holds exactly 14, 28, 42 ... characters",
+  "run_demo.sh (demo.bas vs expected.txt)"),
+ ("C19-or-skips-sign-bit", "C19", "BitVec bitor rewritten in place with a loop over 1..len: bit 15 is taken from the left operand only",
+  "OR with a non-negative left and a negative right operand: 1 OR -2",
+  "run_demo.sh (demo.bas vs demo.expected)"),
+ ("C20-delimited-missing-soft-trailing", "C20", "DelimitedParser (allow missing): a `continue` after pushing a missing element skips `last_parsed = Delimiter`",
+  "delimited_by_allow_missing on an input of delimiters only: the fatal trailing-delimiter error becomes a soft failure with the delimiters consumed",
+  "run_demo.sh (delimited_missing_demo.rs integration test)"),
 ]
 
 RESULTS_FILE = os.path.join(HERE, "seeded", "results.json")
